@@ -24,7 +24,7 @@ RULE = ("seeded tabular worlds: daily feature / price / rate tables of 30-120 ro
 ASSUMPTIONS = [
     "the published feature table is env.X and the price table env.Y (the tables the environment says it serves)",
     "holiday tables are those of pandas_market_calendars as installed",
-    "the given rate applies from the first rate row inside [start, end]; before it the rate book holds the reset value 0",
+    "the given rate applies from its own date on (also when that date lies before `start` or is not a price date); before the first rate row the rate book holds the reset value 0",
 ]
 COMPONENTS = {"real": ["TradingEnvXY (data preparation, _make_timesteps, _make_transmitter)", "State", "Transmitter", "TradingEnv", "sklearn transformers", "pandas_market_calendars"],
               "harness": ["table generator with data faults"], "stub": []}
@@ -73,6 +73,21 @@ def generate(rng, i):
         # an earlier episode on the same environment instance (on another fold if there are folds), abandoned after
         # a few steps or played to its end: what the judged episode serves must not depend on it
         prior = {"fold": rng.choice(sorted(kw["folds"])) if kw.get("folds") else None, "max_steps": rng.choice([0, 1, 3, None])}
+    if tb.get("rate") is not None and i % 3 == 0 and tb["freq"] != "H6":
+        # the reference rate is published on dates of its own: every k-th calendar day from a few days before the first
+        # price date on (week-end and holiday stamps included), not on the price dates
+        import random
+        from datetime import timedelta
+        r2 = random.Random("rate-dates:{}".format(i))
+        d0, d1 = core.parse_t(tb["dates"][0]), core.parse_t(tb["dates"][-1])
+        step = r2.choice([1, 3, 7, 30])
+        t = d0 - timedelta(days=r2.randint(0, 3))
+        idx = []
+        while t <= d1:
+            idx.append(core.iso(t))
+            t += timedelta(days=step)
+        tb["rate_index"] = idx
+        tb["rate"] = [tb["rate"][k % len(tb["rate"])] for k in range(len(idx))]
     return {"kind": "xy", "tables": tb, "kwargs": kw, "fold": fold, "actions": acts, "np_seed": rng.randrange(2 ** 31), "prior": prior}
 
 
@@ -109,7 +124,9 @@ def execute(scenario):
         space = env.observation_space
         hol = holidays(kw.get("calendar", "NYSE"))
         ycols = list(EY.columns)
-        rate_in = rate0.loc[EY.index[0]:EY.index[-1]] if rate0 is not None else None
+        # the rate in force at a step is the last one given at or before it - also one given before `start`, or
+        # on a date that is not a price date (repaired defect D13: such a rate used to be unknown after a reset)
+        rate_in = rate0 if rate0 is not None else None
         visited = []
         for k, r in enumerate(recs):
             stats["ops"] += 1
